@@ -900,3 +900,17 @@ RP("c15-named-queue-provider", "C15", "evolutions7/E28_refactor_5.diff")
 RP("c11-get-without-none-default", "C11", "evolutions7/E29_refactor_1.diff")
 RP("c08-element-none-test-as-statement", "C08", "evolutions7/E29_refactor_6.diff")
 RP("c06-membership-test-as-guard", "C06", "refactorings/R2_refactor_4.diff")
+
+# round 12
+MP("c02-consumer-answers-none-for-a-seen-value", "C02", "C02.VAR", "C02-k2/patch.diff")
+MP("c03-return-inside-the-extracted-action-loop", "C03", "C03.ACT", "C03-k2/patch.diff")
+MP("c04-timestamp-stored-in-a-field-nobody-reads", "C04", "C04.UNITS", "C04-k2/patch.diff")
+MP("c05-tail-larger-than-the-limit", "C05", "C05.SEQ", "C05-k3/patch.diff")
+MP("c06-callback-removed-while-walked", "C06", "C06.COMPLETE", "C06-k1/patch.diff")
+MP("c06-log-variables-not-merged", "C06", "C06.COMPLETE", "C06-k3/patch.diff")
+MP("c08-truth-test-on-the-user-name", "C08", "C08.AUTH", "C08-k1/patch.diff")
+MP("c08-numbers-in-the-snapshot-configuration", "C08", "C08.TYPES", "C08-k3/patch.diff")
+MP("c11-period-unit-honoured-by-one-builder", "C11", "C11.LIMITS", "C11-k3/patch.diff")
+MP("c12-publication-task-dropped", "C12", "C12.NOTIFY", "C12-k3/patch.diff")
+MP("c15-callback-removed-while-walked", "C15", "C15.ONCE", "C15-k1/patch.diff")
+MP("c19-file-name-normalised-before-matching", "C19", "C19.FRAME", "C19-k3/patch.diff")
